@@ -154,7 +154,7 @@ def g_tpl(rng, variables=("block_reason", "block_reason", "blocked_text", "user_
     return [p for p in (["lit", head], var(), ["lit", rng.choice(TPL_MIDS)], var(), ["lit", rng.choice(TPL_TAILS)]) if p != ["lit", ""]]
 
 
-REASONS = ["input policy", "policy 7", "output policy", "bad words", "evil", "boom x", "", "$user_message", "$bot_message", "{{ 1/0 }}", "{{ block_reason }}",
+REASONS = ["long reason " * 60, "input policy", "policy 7", "output policy", "bad words", "evil", "boom x", "", "$user_message", "$bot_message", "{{ 1/0 }}", "{{ block_reason }}",
            'it\'s "quoted"', "a\nb", " lead", "zz", "!", po.REFUSAL, "$", "{{", "x" * 300]
 
 
@@ -802,8 +802,12 @@ def chain(rails, text):
 
 
 def capped(obs):
-    """`RuntimeV1_0.generate_events` raises after more than 100 new events (configurations with many rails)."""
-    return obs.get("exc", "").startswith("Exception: Too many events")
+    """`RuntimeV1_0.generate_events` stops a turn after more than 100 new events (configurations with many rails): older trees
+    raise, the current one appends the internal-error utterance to whatever was said."""
+    if obs.get("exc", "").startswith("Exception: Too many events"):
+        return True
+    n_events = sum(1 for e in (obs.get("alog") or []) if e[0] not in ("step", "llm"))
+    return n_events > 100 and (obs.get("response") or "").endswith(po.INTERNAL_ERROR)
 
 
 def well_shaped(alog):
